@@ -34,7 +34,7 @@ LAYOUT_CFGS = [
 
 
 def cases(tier):
-    out = fixfam.fix_cases(tier, rulesets_raw=("layout",), rulesets_yaml=("layout",))
+    out = fixfam.fix_cases(tier, rulesets_raw=("layout",), rulesets_yaml=("layout",), rulesets_fixtures=("layout",))
     base = sorted(set(corpus.G(1)) | set(fixfam.GLUE)) if tier == "quick" else fixfam.raw_strings("quick")
     for cfg in LAYOUT_CFGS:
         for i in range(0, len(base), 16):
